@@ -174,9 +174,12 @@ func (ix *PkgIndex) arrayLiteral(v *types.Var) (map[int64]constant.Value, int64)
 					if info.Defs[nm] != v || i >= len(vs.Values) {
 						continue
 					}
+					if ix.writtenOutsideInit(v, vs) {
+						return nil, 0
+					}
 					cl, ok := unparen(vs.Values[i]).(*ast.CompositeLit)
 					if !ok {
-						return nil, 0
+						return ix.membershipTable(v, vs.Values[i])
 					}
 					out := map[int64]constant.Value{}
 					next := int64(0)
@@ -327,7 +330,11 @@ func loopSubject(fn *FuncInfo, over types.Object) *types.Var {
 func (pe *predEval) loopAccepts(fn *FuncInfo, subj *types.Var, r int64) (accepted, ok bool) {
 	info := fn.Info()
 	g := pe.ix.FG(fn)
-	env := pe.bindEnv(map[types.Object]constant.Value{subj: constant.MakeInt64(r)})
+	bind := map[types.Object]constant.Value{}
+	if subj != nil {
+		bind[subj] = constant.MakeInt64(r)
+	}
+	env := pe.bindEnv(bind)
 	seen := g.ReachUnder(env)
 	accepted, ok = true, true
 	for x := range seen {
@@ -336,8 +343,14 @@ func (pe *predEval) loopAccepts(fn *FuncInfo, subj *types.Var, r int64) (accepte
 			if e.Cond != nil && e.Pol > 0 {
 				mentions := false
 				ast.Inspect(e.Cond, func(n ast.Node) bool {
-					if id, isId := n.(*ast.Ident); isId && info.Uses[id] == types.Object(subj) {
+					if id, isId := n.(*ast.Ident); isId && subj != nil && info.Uses[id] == types.Object(subj) {
 						mentions = true
+					}
+					// an expression-shaped subject (key[i]) supplied through extra
+					if ex, isEx := n.(ast.Expr); isEx && subj == nil && pe.extra != nil {
+						if _, is := pe.extra(ex); is {
+							mentions = true
+						}
 					}
 					return true
 				})
@@ -377,4 +390,191 @@ func (pe *predEval) loopAccepts(fn *FuncInfo, subj *types.Var, r int64) (accepte
 		accepted = false
 	}
 	return accepted, ok
+}
+
+// writtenOutsideInit: is package variable v (or an element of it) assigned, or its address taken, anywhere outside its own
+// declaration? A table is only a table when nothing else writes it.
+func (ix *PkgIndex) writtenOutsideInit(v *types.Var, decl *ast.ValueSpec) bool {
+	info := ix.Pkg.TypesInfo
+	isV := func(e ast.Expr) bool {
+		for {
+			switch x := unparen(e).(type) {
+			case *ast.IndexExpr:
+				e = x.X
+				continue
+			case *ast.SliceExpr:
+				e = x.X
+				continue
+			}
+			break
+		}
+		return sameVar(info, e, v)
+	}
+	hit := false
+	for _, f := range ix.Pkg.Syntax {
+		ast.Inspect(f, func(n ast.Node) bool {
+			if n == ast.Node(decl) {
+				return false
+			}
+			switch s := n.(type) {
+			case *ast.AssignStmt:
+				for _, l := range s.Lhs {
+					if isV(l) {
+						hit = true
+					}
+				}
+			case *ast.IncDecStmt:
+				if isV(s.X) {
+					hit = true
+				}
+			case *ast.UnaryExpr:
+				if s.Op == token.AND && isV(s.X) {
+					hit = true
+				}
+			}
+			return !hit
+		})
+	}
+	return hit
+}
+
+// membershipTable: the initialiser is an immediately invoked literal that builds a boolean array by marking the bytes of a
+// constant string —
+//
+//	func() (t [256]bool) { for i := 0; i < len(S); i++ { t[S[i]] = true }; return t }()
+//
+// (also with `var t [N]bool` declared inside, `for i := range S`, `for _, c := range S` / `range []byte(S)`). Nothing else may be
+// in the literal. Returns the marked indices (all other entries are false) and the array length.
+func (ix *PkgIndex) membershipTable(v *types.Var, init ast.Expr) (map[int64]constant.Value, int64) {
+	info := ix.Pkg.TypesInfo
+	arr, isArr := v.Type().Underlying().(*types.Array)
+	if !isArr {
+		return nil, 0
+	}
+	if b, isB := arr.Elem().Underlying().(*types.Basic); !isB || b.Info()&types.IsBoolean == 0 {
+		return nil, 0
+	}
+	call, ok := unparen(init).(*ast.CallExpr)
+	if !ok || len(call.Args) != 0 {
+		return nil, 0
+	}
+	lit, ok := unparen(call.Fun).(*ast.FuncLit)
+	if !ok {
+		return nil, 0
+	}
+	var tbl types.Object
+	if rs := lit.Type.Results; rs != nil && len(rs.List) == 1 && len(rs.List[0].Names) == 1 {
+		tbl = info.Defs[rs.List[0].Names[0]]
+	}
+	body := lit.Body.List
+	if tbl == nil && len(body) > 0 {
+		if ds, isD := body[0].(*ast.DeclStmt); isD {
+			if gd, isG := ds.Decl.(*ast.GenDecl); isG && gd.Tok == token.VAR && len(gd.Specs) == 1 {
+				if vs := gd.Specs[0].(*ast.ValueSpec); len(vs.Names) == 1 && len(vs.Values) == 0 {
+					tbl = info.Defs[vs.Names[0]]
+					body = body[1:]
+				}
+			}
+		}
+	}
+	if tbl == nil || len(body) != 2 {
+		return nil, 0
+	}
+	ret, isRet := body[1].(*ast.ReturnStmt)
+	if !isRet || (len(ret.Results) == 1 && !sameVar(info, ret.Results[0], tbl)) || len(ret.Results) > 1 {
+		return nil, 0
+	}
+	// the loop: which constant string, and which expression is its current byte
+	var src string
+	var loopBody *ast.BlockStmt
+	isCur := func(ast.Expr) bool { return false }
+	strOf := func(e ast.Expr) (string, bool) {
+		if c, isC := unparen(e).(*ast.CallExpr); isC && len(c.Args) == 1 {
+			if tv, has := info.Types[c.Fun]; has && tv.IsType() {
+				e = c.Args[0]
+			}
+		}
+		return constString(info, e)
+	}
+	switch lp := body[0].(type) {
+	case *ast.ForStmt:
+		// for i := 0; i < len(S); i++
+		as, okI := lp.Init.(*ast.AssignStmt)
+		cond, okC := lp.Cond.(*ast.BinaryExpr)
+		inc, okP := lp.Post.(*ast.IncDecStmt)
+		if !okI || !okC || !okP || len(as.Lhs) != 1 || len(as.Rhs) != 1 || cond.Op != token.LSS || inc.Tok != token.INC {
+			return nil, 0
+		}
+		iv := objOf(info, as.Lhs[0])
+		if z, isZ := constInt(info, as.Rhs[0]); !isZ || z != 0 || iv == nil || !sameVar(info, cond.X, iv) || !sameVar(info, inc.X, iv) {
+			return nil, 0
+		}
+		lc, isL := unparen(cond.Y).(*ast.CallExpr)
+		if !isL || builtinName(info, lc) != "len" {
+			return nil, 0
+		}
+		s, isS := strOf(lc.Args[0])
+		if !isS {
+			return nil, 0
+		}
+		src, loopBody = s, lp.Body
+		isCur = func(e ast.Expr) bool {
+			ie, isIE := unparen(e).(*ast.IndexExpr)
+			if !isIE || !sameVar(info, ie.Index, iv) {
+				return false
+			}
+			s2, isS2 := strOf(ie.X)
+			return isS2 && s2 == s
+		}
+	case *ast.RangeStmt:
+		s, isS := strOf(lp.X)
+		if !isS {
+			return nil, 0
+		}
+		for _, ch := range s {
+			if ch >= 0x80 {
+				return nil, 0 // ranging over runes of a non-ASCII string is not byte membership
+			}
+		}
+		src, loopBody = s, lp.Body
+		kv, vv := objOf(info, lp.Key), types.Object(nil)
+		if lp.Value != nil {
+			vv = objOf(info, lp.Value)
+		}
+		isCur = func(e ast.Expr) bool {
+			if vv != nil && sameVar(info, e, vv) {
+				return true
+			}
+			ie, isIE := unparen(e).(*ast.IndexExpr)
+			if !isIE || kv == nil || !sameVar(info, ie.Index, kv) {
+				return false
+			}
+			s2, isS2 := strOf(ie.X)
+			return isS2 && s2 == s
+		}
+	default:
+		return nil, 0
+	}
+	if loopBody == nil || len(loopBody.List) != 1 {
+		return nil, 0
+	}
+	set, isSet := loopBody.List[0].(*ast.AssignStmt)
+	if !isSet || set.Tok != token.ASSIGN || len(set.Lhs) != 1 || len(set.Rhs) != 1 {
+		return nil, 0
+	}
+	ie, isIE := unparen(set.Lhs[0]).(*ast.IndexExpr)
+	if !isIE || !sameVar(info, ie.X, tbl) || !isCur(ie.Index) {
+		return nil, 0
+	}
+	if tv, has := info.Types[set.Rhs[0]]; !has || tv.Value == nil || tv.Value.Kind() != constant.Bool || !constant.BoolVal(tv.Value) {
+		return nil, 0
+	}
+	out := map[int64]constant.Value{}
+	for i := 0; i < len(src); i++ {
+		if int64(src[i]) >= arr.Len() {
+			return nil, 0
+		}
+		out[int64(src[i])] = constant.MakeBool(true)
+	}
+	return out, arr.Len()
 }
